@@ -171,10 +171,10 @@ Qed.
 
 Lemma map_bases_result (rec : recT) stack obs (k : st -> list addr -> res) (P : addr -> Prop) :
   (forall s l s' a, k s l = Ok s' a -> P a) ->
-  forall nbs s acc s' a, map_bases rec stack obs nbs s acc k = Ok s' a -> P a.
+  forall nbs s acc s' a, map_bases modname nm rec stack obs nbs s acc k = Ok s' a -> P a.
 Proof.
   intros Hk. induction nbs as [|nb nbs IH]; intros s acc s' a H; simpl in H; [eapply Hk; exact H|].
-  destruct (find_old_base (hp s) obs nb).
+  destruct (base_counterpart modname nm (hp s) obs nb).
   - apply bind_ok in H. destruct H as [s2 [u [_ H]]]. eapply IH. exact H.
   - eapply IH. exact H.
 Qed.
@@ -207,8 +207,15 @@ Qed.
    kept - and stores it as the class's __bases__ *)
 Theorem map_bases_single (rec : recT) stack ob nb s k :
   same_class_key (class_key (hp s) ob) (class_key (hp s) nb) = true ->
-  map_bases rec stack [ob] [nb] s [] k = bind (rec s stack ob nb) (fun s' u => k s' [u]).
-Proof. intros H. simpl. rewrite H. reflexivity. Qed.
+  map_bases modname nm rec stack [ob] [nb] s [] k = bind (rec s stack ob nb) (fun s' u => k s' [u]).
+Proof. intros H. simpl. unfold base_counterpart. simpl. rewrite H. reflexivity. Qed.
+
+(* C16-g repaired: a base the class gains (no counterpart among the old bases), defined in this module, is mapped
+   through livepatch with the class of that name that the module being reloaded binds *)
+Theorem map_bases_gained (rec : recT) stack obs nb s k c :
+  find_old_base (hp s) obs nb = None -> gained_counterpart modname nm (hp s) nb = Some c ->
+  map_bases modname nm rec stack obs [nb] s [] k = bind (rec s stack c nb) (fun s' u => k s' [u]).
+Proof. intros H1 H2. simpl. unfold base_counterpart. rewrite H1, H2. reflexivity. Qed.
 
 Theorem patch_class_body_sets_bases (rec : recT) stack c_old c_new s mapped n1 m1 cd1 b1 sl1 n2 m2 cd2 b2 sl2 :
   lookup (hp s) c_old = Some (OClass n1 m1 cd1 b1 sl1) ->
@@ -268,7 +275,7 @@ Definition c16e_heap : heap :=
     (10, OClass 20 (Some 9) [] [1000] None); (11, OClass 20 (Some 9) [] [1000] None);
     (12, OClass 21 (Some 9) [] [10] None);   (13, OClass 21 (Some 9) [] [11] None) ]%N.
 
-Definition c16e_names := (mkNames 90 91 92 93)%N.
+Definition c16e_names := (mkNames 90 91 92 93 3)%N.
 
 Definition class_bases (h : heap) (c : addr) : option (list addr) :=
   match lookup h c with Some (OClass _ _ _ b _) => Some b | _ => None end.
